@@ -727,6 +727,22 @@ def _exhaustive_small(ctx):
                     fails.append(f)
                     if len([x for x in fails if x["kind"] == "hang"]) >= 3:
                         return n, fails
+    # every string over a small alphabet up to length 4 (quick) / 5 (thorough), as a name, a TTL,
+    # a TXT rdata, an A rdata and a zone line
+    import itertools
+
+    alpha = ["1", "w", "\\", ".", '"', "(", " ", "9"]
+    for ln in range(0, (6 if ctx.tier == "thorough" else 5)):
+        for tup in itertools.product(alpha, repeat=ln):
+            t = "".join(tup)
+            for e, p in (("name_text", [t, 1, 0]), ("ttl_text", [t]), ("rdata_text", [1, 16, t, 1, 1]), ("rdata_text", [1, 1, t, 0, 0]),
+                         ("zone_text", ["$ORIGIN example.\n" + t + " 300 IN A 10.0.0.1\n" + t + "\n", 1, 1, 0])):
+                n += 1
+                out, f = P.run_probe(e, p)
+                if f:
+                    fails.append(f)
+                    if len([x for x in fails if x["kind"] == "hang"]) >= 3:
+                        return n, fails
     for a in range(256):
         for b in (range(256) if ctx.tier == "thorough" else (0, 1, 12, 63, 64, 0xC0, 0xFF)):
             n += 1
@@ -747,13 +763,31 @@ def extra(ctx):
     fails = []
     counts = {}
     procs = min(8, int(os.environ.get("VERIF_C04_PROCS", "8")))
-    box = float(os.environ.get("VERIF_C04_SECONDS", ctx.n(70, 300)))
+    box = float(os.environ.get("VERIF_C04_SECONDS", ctx.n(45, 300)))
     cap = int(os.environ.get("VERIF_C04_PROBES", ctx.n(1500000, 12000000)))
     floor = int(os.environ.get("VERIF_C04_MIN_PROBES", ctx.n(40000, 400000)))
     per = ctx.n(2500, 10000)
     nbatch = 0
     hung = False
+    nsweep = 0
     with mp.get_context("fork").Pool(procs) as pool:
+        # deterministic sweeps first: every specimen of every type - each token replaced by each
+        # boundary token, every truncation and octet substitution of its wire form, and the record
+        # inside a message cut at every length, strict and continue_on_error
+        sw = [(what, i, procs) for what in ("text", "wire", "msg") for i in range(procs)]
+        it = pool.imap_unordered(P.sweep_batch, sw)
+        for _ in sw:
+            try:
+                c, fs = it.next(timeout=900)
+            except mp.TimeoutError:
+                fails.append({"kind": "hang", "entry": "sweep", "what": "a sweep shard did not finish within 900 s", "sig": "sweep-hang"})
+                pool.terminate()
+                hung = True
+                break
+            for k, v in c.items():
+                ctx.count("probe:" + k, v)
+                nsweep += v
+            fails += fs
         while not hung:
             done_probes = sum(counts.values())
             if done_probes >= cap or (time.time() - t0 > box and done_probes >= floor):
@@ -777,10 +811,10 @@ def extra(ctx):
     for k, v in counts.items():
         ctx.count("probe:" + k, v)
     nprobe = sum(counts.values())
-    ctx.notes["extra_evaluations"] = nprobe + n_ex
+    ctx.notes["extra_evaluations"] = nprobe + n_ex + nsweep
     ctx.notes["extra_nontrivial"] = sum(v for k, v in counts.items() if k.endswith(":ok")) + len([k for k in counts if ":exc" in k])
     ctx.notes["exhaustive"] = False
-    ctx.notes["oracle_probes"] = {"random": nprobe, "batches": nbatch, "exhaustive_small_scope": n_ex, "seconds": round(time.time() - t0, 1),
+    ctx.notes["oracle_probes"] = {"random": nprobe, "batches": nbatch, "exhaustive_small_scope": n_ex, "systematic_sweeps": nsweep, "seconds": round(time.time() - t0, 1),
                                   "seed_specimens": {"rdatas": len(s.rdatas), "zone_lines": len(s.zone_lines), "test_literals": len(s.texts),
                                                      "wire_literals": len(s.wires), "messages": len(s.msg_wires)}}
     # de-duplicate by signature, smallest probe first
